@@ -4,9 +4,9 @@
     text after the last newline being the last (possibly empty) line; [count_nl]; [after_nl c k] = length
     of the first k lines; [lines_between c a b] = concatenation of lines a..b-1 (1-based, clamped). *)
 From ZV Require Import Lib.Base Lib.GoSearch Lib.RuneCount Model.Lines
-  Proofs.LinesBasic Proofs.RuneCountProofs Proofs.RuneWidthUtf8 Proofs.LinesMatch Proofs.LinesMultiline Proofs.LinesChunk.
+  Proofs.LinesBasic Proofs.RuneCountProofs Proofs.RuneWidthUtf8 Proofs.LinesMatch Proofs.LinesMultiline Proofs.LinesChunk Proofs.LinesChunkSort.
 From ZV Require Lib.Utf8.
-From Coq Require Import Sorting.Sorted.
+From Coq Require Import Sorting.Sorted Sorting.Permutation.
 
 (** sort.Search as used by atOffset (and runeOffsetMap.lookup): least index of a monotone predicate *)
 Theorem C03_go_search_is_least_index : forall n f,
@@ -126,6 +126,18 @@ Theorem C03_chunk_matches : forall c ctx, (0 <= ctx)%Z -> forall ms,
 Proof. intros c ctx _. exact (fill_content_chunk_matches_spec c ctx). Qed.
 Print Assumptions C03_chunk_matches.
 
+(** ... and for content candidates in ANY order (the `sort.IsSorted` / `sort.Sort(sortByOffsetSlice)` guard of
+    fillContentChunkMatches): the result is that of the sorted permutation ms' (= ms itself when already sorted) *)
+Theorem C03_chunk_matches_any_order : forall c ctx ms,
+  Forall (fun m => c_fn m = false) ms -> Forall (chunk_cand_ok c) ms ->
+  let ms' := if is_sorted_by cand_less ms then ms else sort_cands ms in
+  let cs := chunk_candidates (newlines_of c) ctx ms' in
+  Permutation ms' ms /\ is_sorted_by cand_less ms' = true /\
+  fill_content_chunk_matches (newlines_of c) c ctx ms = Ok (map (chunk_spec c ctx) cs) /\
+  Forall (chunk_inv c) cs /\ separated_fwd ctx cs /\ flat_map ch_cands cs = ms'.
+Proof. exact fill_content_chunk_matches_any_order. Qed.
+Print Assumptions C03_chunk_matches_any_order.
+
 (** every range of a chunk lies inside the chunk's content (byte-wise) *)
 Theorem C03_chunk_contains_ranges : forall c ctx, (0 <= ctx)%Z -> forall ch, chunk_inv c ch ->
   Forall (fun x => l_off (cm_start (chunk_spec c ctx ch)) <= c_off x /\ c_end x <= cm_end (chunk_spec c ctx ch))
@@ -219,6 +231,9 @@ Example ex_chunk_result :
   Some [ ([97; 98; 10; 195; 169; 120; 10], (0, 1%Z, 1), [((1, 1%Z, 2), (5, 2%Z, 2)); ((5, 2%Z, 2), (6, 2%Z, 3))], false);
          ([121; 122], (8, 4%Z, 1), [((8, 4%Z, 1), (10, 4%Z, 3))], false) ]%N.
 Proof. vm_compute. reflexivity. Qed.
+Example ex_unsorted : is_sorted_by cand_less (rev ex_ms) = false /\ sort_cands (rev ex_ms) = ex_ms /\
+  Forall (fun m => c_fn m = false) (rev ex_ms).
+Proof. split; [reflexivity|]. split; [reflexivity|repeat constructor]. Qed.
 Example ex_rune_count : rune_count ex_c = 9 /\ Utf8.rune_count ex_c = 9 /\ rune_count [195; 40; 240; 159; 152]%N = 5.
 Proof. vm_compute. repeat split; reflexivity. Qed.
 Example ex_col_calls : Forall (col_call_ok ex_c) [(3, 5); (3, 6); (0, 1)].
